@@ -826,6 +826,155 @@ type c19Atom struct {
 	meta bool
 }
 
+// c19Mix: a parent directory below which the same name is a file in one sibling directory, a
+// directory in another, a symbolic link (to a file, to a directory, dangling) elsewhere.
+type c19Mix struct {
+	parent []string // path from the root
+	kids   []string // the sibling directories
+	tail   []string // the names N1 N2 (N3): N1 has mixed kinds
+}
+
+func c19AddKindMix(r *Rand, root *c19Node, pwd string) *c19Mix {
+	// parent: PWD, or one of its sub-directories
+	parent := strings.Split(strings.TrimPrefix(pwd, "/"), "/")
+	m := &c19FS{root: root}
+	pn, err := m.resolve("/" + strings.Join(parent, "/"))
+	if err != nil || pn.kind != 'd' {
+		return nil
+	}
+	if r.Chance(30) {
+		for _, name := range pn.names {
+			if pn.kids[name].kind == 'd' && !strings.ContainsAny(name, "\n") {
+				parent = append(parent, name)
+				pn = pn.kids[name]
+				break
+			}
+		}
+	}
+	// at least three sibling directories
+	for _, name := range []string{"a", "b", "c", "ab", "c.d"} {
+		nd := 0
+		for _, k := range pn.names {
+			if pn.kids[k].kind == 'd' {
+				nd++
+			}
+		}
+		if nd >= 3 {
+			break
+		}
+		pn.add(name, c19Dir())
+	}
+	tail := []string{r.Pick([]string{"x", "y", "n1", "x.d"}), r.Pick([]string{"y", "z", "n2"})}
+	if r.Chance(30) {
+		tail = append(tail, "n3")
+	}
+	mix := &c19Mix{parent: parent, tail: tail}
+	deep := func() *c19Node { // a directory that holds the rest of the tail
+		d := c19Dir()
+		cur := d
+		for i, t := range tail[1:] {
+			if i == len(tail)-2 {
+				if r.Chance(70) {
+					cur.add(t, &c19Node{kind: 'f'})
+				} else {
+					cur.add(t, c19Dir())
+				}
+			} else {
+				nd := c19Dir()
+				cur.add(t, nd)
+				cur = nd
+			}
+		}
+		return d
+	}
+	for _, name := range pn.names {
+		c := pn.kids[name]
+		if c.kind != 'd' {
+			continue
+		}
+		mix.kids = append(mix.kids, name)
+		if _, has := c.kids[tail[0]]; has {
+			continue
+		}
+		switch k := r.Intn(20); {
+		case k < 7:
+			c.add(tail[0], deep())
+		case k < 12:
+			c.add(tail[0], &c19Node{kind: 'f'})
+		case k < 14:
+			c.add("f0", &c19Node{kind: 'f'})
+			c.add(tail[0], &c19Node{kind: 'l', target: "f0"})
+		case k < 17:
+			c.add("d0", deep())
+			c.add(tail[0], &c19Node{kind: 'l', target: "d0"})
+		case k < 19:
+			c.add(tail[0], &c19Node{kind: 'l', target: "nonexist"})
+		}
+	}
+	if c19Cyclic(root) {
+		return nil
+	}
+	return mix
+}
+
+// c19MixWord: a literal prefix to the parent, one glob element for the sibling directories, then a
+// literal tail of two or three names (what a "stat the whole literal chunk" shortcut gets wrong).
+func c19MixWord(r *Rand, cs *c19Case, mix *c19Mix) []c19Seg {
+	slash := c19Atom{"/", false}
+	star := c19Atom{"*", true}
+	var atoms []c19Atom
+	pwdParts := strings.Split(strings.TrimPrefix(cs.pwd, "/"), "/")
+	switch {
+	case r.Chance(20): // absolute
+		for _, p := range mix.parent {
+			atoms = append(atoms, slash, c19Atom{p, false})
+		}
+		atoms = append(atoms, slash)
+	default:
+		if len(mix.parent) < len(pwdParts) {
+			return nil
+		}
+		if r.Chance(15) {
+			atoms = append(atoms, c19Atom{".", false}, slash)
+		}
+		for _, p := range mix.parent[len(pwdParts):] {
+			atoms = append(atoms, c19Atom{p, false}, slash)
+		}
+	}
+	first := ""
+	for _, k := range mix.kids {
+		if c19SafeUnq(k[0]) && !strings.Contains(first, k[:1]) {
+			first += k[:1]
+		}
+	}
+	switch k := r.Intn(10); {
+	case k < 4 || first == "":
+		atoms = append(atoms, star)
+	case k < 6:
+		atoms = append(atoms, c19Atom{"?", true}, star)
+	case k < 8:
+		atoms = append(atoms, c19Atom{"[" + first + "]", true}, star)
+	case k < 9 && cs.opts&c19Star != 0:
+		atoms = append(atoms, c19Atom{"**", true})
+	default:
+		atoms = append(atoms, c19Atom{mix.kids[r.Intn(len(mix.kids))][:1], false}, star)
+	}
+	n := len(mix.tail)
+	if r.Chance(20) {
+		n = 1 + r.Intn(len(mix.tail))
+	}
+	for _, t := range mix.tail[:n] {
+		atoms = append(atoms, slash, c19Atom{t, false})
+	}
+	if r.Chance(10) {
+		atoms = append(atoms, slash)
+	}
+	if r.Chance(10) {
+		atoms = append(atoms, slash, star)
+	}
+	return c19QuoteAtoms(r, atoms, &cs.vars)
+}
+
 func c19FlipCase(r *Rand, s string) string {
 	b := []byte(s)
 	for i, ch := range b {
@@ -1007,6 +1156,14 @@ func c19GenCase(r *Rand, thorough bool) c19Case {
 	for i, p := range []int{25, 20, 35, 20, 25, 5} {
 		if r.Chance(p) {
 			cs.opts |= 1 << i
+		}
+	}
+	if r.Chance(28) {
+		if mix := c19AddKindMix(r, cs.root, cs.pwd); mix != nil {
+			if segs := c19MixWord(r, &cs, mix); segs != nil {
+				cs.segs = segs
+				return cs
+			}
 		}
 	}
 	m := &c19FS{root: cs.root}
@@ -1208,6 +1365,22 @@ func c19(c *Ctx) {
 		j.excl = excl
 		if fsys.escaped && j.excl == "" {
 			j.excl = "above-root"
+		}
+		if j.excl == "" && strings.HasPrefix(answer, "ok") {
+			// oracle-free invariant: a path produced by pathname expansion exists (lstat)
+			if esc, cand := c19Escaped(cs); cand && c19HasMeta(esc) && cs.opts&c19NoGlob == 0 {
+				kept := len(fields) == 1 && fields[0] == c19KeptText(cs)
+				if !kept {
+					lfs := &c19FS{root: cs.root}
+					for _, f := range fields {
+						if !lfs.lexists(cs.pwd, f) {
+							c.Fail("sh "+toks, fmt.Sprintf("expansion result %q does not exist (lstat) in the tree; all results %q; %s", f, fields, c19Describe(cs, src)))
+							break
+						}
+					}
+					c.Hist["lstat-checked"]++
+				}
+			}
 		}
 		if answer == "err negext-unsupported" && j.excl == "" {
 			j.excl = "negext-unsupported" // C17: !(…) next to other pattern characters is rejected
@@ -1764,4 +1937,52 @@ func c19UnterminatedExt(p string) bool {
 		}
 	}
 	return false
+}
+
+// c19KeptText: the field as it is printed when no expansion takes place.
+func c19KeptText(cs c19Case) string {
+	var sb strings.Builder
+	for _, s := range cs.segs {
+		switch s.kind {
+		case 'u':
+			for i := 0; i < len(s.val); i++ {
+				if s.val[i] == '\\' && i+1 < len(s.val) {
+					i++
+				}
+				sb.WriteByte(s.val[i])
+			}
+		case 's', 'g':
+			sb.WriteString(s.val)
+		case 'd':
+			v := s.val
+			for i := 0; i < len(v); i++ {
+				if v[i] == '\\' && i+1 < len(v) && strings.IndexByte("\"\\$`", v[i+1]) >= 0 {
+					i++
+				}
+				sb.WriteByte(v[i])
+			}
+		case 'p':
+			sb.WriteString(cs.vars[s.idx])
+		}
+	}
+	return sb.String()
+}
+
+// lexists: lstat(path) succeeds (path relative to pwd or absolute; kernel resolution).
+func (m *c19FS) lexists(pwd, path string) bool {
+	if !strings.HasPrefix(path, "/") {
+		path = pwd + "/" + path
+	}
+	i := strings.LastIndexByte(path, '/')
+	dir, last := path[:i+1], path[i+1:]
+	if last == "" || last == "." || last == ".." {
+		_, err := m.resolve(path)
+		return err == nil
+	}
+	n, err := m.resolve(dir)
+	if err != nil || n.kind != 'd' {
+		return false
+	}
+	_, ok := n.kids[last]
+	return ok
 }
